@@ -1,4 +1,5 @@
 import N0Verif.Proofs.FindAllTail
+import N0Verif.Proofs.FindAllList
 /-!
   The descendant wildcard with a tail of ANY length, `'//*/name/s1/…/sk'` (dict roots, k ≥ 0).
 
@@ -420,6 +421,172 @@ theorem fatn_descendant (re : Bool) {name : Str} {subs : List Str} (hn : PlainKe
     (fad_keys_nodup _ (fatn_tail_distinct subs _ ((fad_desc_distinct name).1 _ hko).1)
       (fatn_tail_plain subs hs _ (fad_desc_plain hko)))
   simpa [fadMapR, flPath] using this
+
+/-! ## list roots (`n0list`) -/
+
+section tailr
+variable (re : Bool) (name : Str) (subs : List Str)
+
+def FatnrPV (v : Val) : Prop :=
+  isContainer v = true → KeysOkV v → ContOkV v → NnlsV (name :: subs).dropLast v → ∃ N, ∀ fuel ≥ N, ∀ (q : Pos) (ps : PS),
+    FalRooted q → q ≠ [] → PlainPos q →
+    ((falMapR q (tailN subs (descV name v))).map Prod.fst).Nodup →
+    (fa re fuel v (fatnT name subs) (flPath [] q) ps).res = .ok (some (falMapR q (tailN subs (descV name v))))
+
+def FatnrPK (kvs : List (Str × Val)) : Prop :=
+  KeysOkK kvs → ContOkK kvs → NnlsK (name :: subs).dropLast kvs → ∃ N, ∀ fuel ≥ N, ∀ (q : Pos) (ps : PS) (acc : Found),
+    FalRooted q → q ≠ [] → PlainPos q →
+    ((acc ++ falMapR q (tailN subs (descK name kvs))).map Prod.fst).Nodup →
+    keysLoop (fun k c => fa re fuel c (fatnT name subs) (flPath [] q ++ [k]) ps) kvs acc =
+      .ok (some (acc ++ falMapR q (tailN subs (descK name kvs))))
+
+def FatnrPL (xs : List Val) : Prop :=
+  KeysOkL xs → ContOkL xs → NnlsL (name :: subs).dropLast xs → ∃ N, ∀ fuel ≥ N, ∀ (q : Pos) (ps : PS) (node : Val) (i : Nat) (cur : FL) (acc : Found),
+    FalRooted q → PlainPos q → cur.dropLast = (flPath [] q).dropLast →
+    ((acc ++ falMapR q (tailN subs (descL name i xs))).map Prod.fst).Nodup →
+    (starLoop (fun x cur1 => fa re fuel x (fatnT name subs) cur1 (push ps cur1 node)) re
+      ((flPath [] q).getLast?.getD []) i xs cur acc).1 = .ok (some (acc ++ falMapR q (tailN subs (descL name i xs))))
+
+theorem fatnr_desc_dict (hn : PlainKey name) (hs : ∀ s ∈ subs, PlainKey s) (c : Cls) (kvs : List (Str × Val))
+    (hk : FatnrPK re name subs kvs) : FatnrPV re name subs (.dict c kvs) := by
+  intro _ hko hco hnl
+  have hnl0 := hnl
+  simp only [KeysOkV, ContOkV, NnlsV] at hko hco hnl
+  obtain ⟨N, hN⟩ := hk hko hco hnl.2
+  refine ⟨N + subs.length + 3, fun fuel hf q ps hr hq hp hnd => ?_⟩
+  obtain ⟨f, rfl⟩ : ∃ f, fuel = (N + f) + subs.length + 2 + 1 := ⟨fuel - (N + subs.length + 3), by omega⟩
+  have h1 := fatn_self_check re subs name hn hs (N + f) c kvs (flPath [] q) ps hnl0
+  have h2 := fad_star_dict re _ c kvs (name :: subs) (flPath [] q) ps _ h1
+  show (fa re ((N + f) + subs.length + 2 + 1) (.dict c kvs) (['*'] :: name :: subs) (flPath [] q) ps).res = _
+  rw [h2]
+  simp only
+  simp only [descV, tailN_append, falMapR_append] at hnd ⊢
+  have hacc : upd [] (fatnSelf (name :: subs) (flPath [] q) (.dict c kvs)) =
+      falMapR q (tailN subs (match lookup name kvs with
+        | some c => [([Seg.key name], c)]
+        | Option.none => [])) := by
+    simp only [fatnSelf, walkN]
+    cases lookup name kvs with
+    | none => simp [tailN_nil, falMapR, upd]
+    | some c' =>
+      simp only [tailN_single]
+      cases walkN subs c' with
+      | none => rfl
+      | some x =>
+        have hpn : PlainPos (q ++ (name :: subs).map Seg.key) :=
+          fad_plainPos_append hp (fatn_plainPos_keys _ (fun s hs' => by
+            rcases List.mem_cons.1 hs' with rfl | h
+            · exact hn
+            · exact hs s h))
+        have hkey : keyOf (flPath [] q ++ name :: subs) = '/' :: '/' :: renderPos (q ++ (name :: subs).map Seg.key) := by
+          rw [fatn_flPath_keys]
+          refine fal_keyOf_rooted ?_ (by simp) hpn
+          cases q with
+          | nil => exact absurd rfl hq
+          | cons a r => cases a with
+            | key k => exact hr.elim
+            | idx n => trivial
+        simp only [falMapR, List.map_cons, List.map_nil, upd, List.foldl_cons, List.foldl_nil, kvSet,
+          List.cons_append, List.nil_append, hkey]
+  rw [hacc]
+  exact hN _ (by omega) q _ _ hr hq hp hnd
+
+theorem fatnr_desc_list (c : Cls) (xs : List Val) (hl : FatnrPL re name subs xs) : FatnrPV re name subs (.list c xs) := by
+  intro _ hko hco hnl
+  simp only [KeysOkV, ContOkV, NnlsV] at hko hco hnl
+  obtain ⟨N, hN⟩ := hl hko hco hnl
+  refine ⟨N + 2, fun fuel hf q ps hr hq hp hnd => ?_⟩
+  obtain ⟨f, rfl⟩ : ∃ f, fuel = f + 2 := ⟨fuel - 2, by omega⟩
+  show (fa re (f + 2) (.list c xs) (['*'] :: name :: subs) (flPath [] q) ps).res = _
+  rw [fad_star_list re f c xs (name :: subs) (flPath [] q) ps (fal_flPath_ne hr hq)]
+  simp only [descV] at hnd ⊢
+  have := hN f (by omega) q ps (.list c xs) 0 (flPath [] q) [] hr hp rfl (by simpa using hnd)
+  simpa [fatnT] using this
+
+theorem fatnr_desc_kcons (k : Str) (c : Val) (kvs : List (Str × Val)) (hv : FatnrPV re name subs c)
+    (hk : FatnrPK re name subs kvs) : FatnrPK re name subs ((k, c) :: kvs) := by
+  intro hko hco hnl
+  simp only [KeysOkK, ContOkK, NnlsK] at hko hco hnl
+  obtain ⟨hpk, _, hkc, hkk⟩ := hko
+  obtain ⟨N2, hN2⟩ := hk hkk hco.2 hnl.2
+  by_cases hc : isContainer c = true
+  · obtain ⟨N1, hN1⟩ := hv hc hkc hco.1 hnl.1
+    refine ⟨max N1 N2, fun fuel hf q ps acc hr hq hp hnd => ?_⟩
+    have hf1 : fuel ≥ N1 := by omega
+    have hf2 : fuel ≥ N2 := by omega
+    simp only [descK, tailN_append, tailN_map_cons, falMapR_append] at hnd ⊢
+    rw [← falMapR_snoc] at hnd ⊢
+    obtain ⟨hd1, hd2, hd3⟩ := fad_nodup_split hnd
+    have hcall := hN1 fuel hf1 (q ++ [Seg.key k]) ps (fal_rooted_snoc hr _ (fun h => absurd h hq)) (by simp)
+      (fad_plainPos_append hp ⟨hpk, trivial⟩) hd1
+    rw [fad_flPath_snoc_key] at hcall
+    simp only [keysLoop, hc, if_true, hcall]
+    rw [fad_upd_append _ _ hd2, hN2 fuel hf2 q ps _ hr hq hp hd3, List.append_assoc]
+  · have hc' : isContainer c = false := by simpa using hc
+    refine ⟨N2, fun fuel hf q ps acc hr hq hp hnd => ?_⟩
+    simp only [descK, fad_descV_scalar name c hc', List.map_nil, List.nil_append] at hnd ⊢
+    simp only [keysLoop, hc', Bool.false_eq_true, if_false]
+    exact hN2 fuel hf q ps acc hr hq hp hnd
+
+theorem fatnr_desc_lcons (x : Val) (xs : List Val) (hv : FatnrPV re name subs x) (hl : FatnrPL re name subs xs) :
+    FatnrPL re name subs (x :: xs) := by
+  intro hko hco hnl
+  simp only [KeysOkL, ContOkL, NnlsL] at hko hco hnl
+  obtain ⟨hcx, hcv, hcl⟩ := hco
+  obtain ⟨N1, hN1⟩ := hv hcx hko.1 hcv hnl.1
+  obtain ⟨N2, hN2⟩ := hl hko.2 hcl hnl.2
+  refine ⟨max N1 N2, fun fuel hf q ps node i cur acc hr hp hcur hnd => ?_⟩
+  have hf1 : fuel ≥ N1 := by omega
+  have hf2 : fuel ≥ N2 := by omega
+  simp only [descL, tailN_append, tailN_map_cons, falMapR_append] at hnd ⊢
+  rw [← falMapR_snoc] at hnd ⊢
+  obtain ⟨hd1, hd2, hd3⟩ := fad_nodup_split hnd
+  have hcur1 : setLast cur ((flPath [] q).getLast?.getD [] ++ bracket (natRepr i)) = flPath [] (q ++ [Seg.idx i]) := by
+    rw [fad_flPath_snoc_idx, fal_bump_eq]
+    simp only [setLast, hcur]
+  have hcall := hN1 fuel hf1 (q ++ [Seg.idx i]) (push ps (flPath [] (q ++ [Seg.idx i])) node)
+    (fal_rooted_snoc hr _ (fun _ => ⟨i, rfl⟩)) (by simp)
+    (fad_plainPos_append hp (by trivial)) hd1
+  simp only [starLoop, hcx, if_true, hcur1, hcall]
+  rw [fad_upd_append _ _ hd2]
+  have hdl : (fa re fuel x (fatnT name subs) (flPath [] (q ++ [Seg.idx i])) (push ps (flPath [] (q ++ [Seg.idx i])) node)).fl.dropLast
+      = (flPath [] q).dropLast := by
+    rw [fa_dl, ← hcur1, setLast_dropLast, hcur]
+  rw [hN2 fuel hf2 q ps node (i + 1) _ _ hr hp hdl hd3, List.append_assoc]
+
+theorem fatnr_desc_all (hn : PlainKey name) (hs : ∀ s ∈ subs, PlainKey s) :
+    (∀ v, FatnrPV re name subs v) ∧ (∀ kvs, FatnrPK re name subs kvs) ∧ (∀ xs, FatnrPL re name subs xs) := by
+  refine fad_val_ind (fun c kvs h => fatnr_desc_dict re name subs hn hs c kvs h)
+    (fun c xs h => fatnr_desc_list re name subs c xs h)
+    (fun v hv hc => by rw [hv] at hc; cases hc) ?_ (fun k c kvs h1 h2 => fatnr_desc_kcons re name subs k c kvs h1 h2) ?_
+    (fun x xs h1 h2 => fatnr_desc_lcons re name subs x xs h1 h2)
+  · intro _ _ _
+    exact ⟨0, fun fuel _ q ps acc _ _ _ _ => by simp [keysLoop, descK, falMapR, tailN_nil]⟩
+  · intro _ _ _
+    exact ⟨0, fun fuel _ q ps node i cur acc _ _ _ _ => by simp [starLoop, descL, falMapR, tailN_nil]⟩
+
+end tailr
+
+/-- **`'//*/name/s1/…/sk'` on a list root** (token level): exactly `tailN subs (descV name root)`,
+keys `"//" ++` rendered position, document order -/
+theorem fatn_descendant_list (re : Bool) {name : Str} {subs : List Str} (hn : PlainKey name) (hs : ∀ s ∈ subs, PlainKey s)
+    (c : Cls) (xs : List Val) (hko : KeysOkV (.list c xs)) (hco : ContOkV (.list c xs))
+    (hnl : NnlsV (name :: subs).dropLast (.list c xs)) :
+    ∃ N, ∀ fuel ≥ N, (fa re fuel (.list c xs) (fatnT name subs) [] []).res =
+      .ok (some ((tailN subs (descV name (.list c xs))).map (fun pv => ('/' :: '/' :: renderPos pv.1, pv.2)))) := by
+  have hko' : KeysOkL xs := by simpa only [KeysOkV] using hko
+  have hco' : ContOkL xs := by simpa only [ContOkV] using hco
+  have hnl' : NnlsL (name :: subs).dropLast xs := by simpa only [NnlsV] using hnl
+  obtain ⟨N, hN⟩ := (fatnr_desc_all re name subs hn hs).2.2 xs hko' hco' hnl'
+  refine ⟨N + 2, fun fuel hf => ?_⟩
+  obtain ⟨f, rfl⟩ : ∃ f, fuel = f + 2 := ⟨fuel - 2, by omega⟩
+  have hnd := fal_keys_nodup _ (fatn_tail_distinct subs _ ((fad_desc_distinct name).1 _ hko).1)
+      (fatn_tail_plain subs hs _ (fad_desc_plain hko))
+  simp only [descV] at hnd ⊢
+  have := hN f (by omega) [] [] (.list c xs) 0 [[]] [] trivial trivial rfl (by simpa using hnd)
+  show (fa re (f + 2) (.list c xs) (['*'] :: name :: subs) [] []).res = _
+  rw [fal_star_root]
+  simpa [fatnT, falMapR, flPath] using this
 
 /-! ## the reference in terms of positions (`getAt`) -/
 
